@@ -30,12 +30,18 @@ impl Reasoner {
                 .fold(
                     || HashSet::new(),
                     |mut local_set, triple1| {
-                        // Use only the predicate for candidate rule lookup
-                        let candidate_rule_ids = self.rule_index.query_candidate_rules(
+                        // Candidate rules have a premise with this predicate, or a premise
+                        // with a variable predicate (indexed under WILDCARD)
+                        let mut candidate_rule_ids = self.rule_index.query_candidate_rules(
                             None,
                             Some(triple1.predicate),
                             None,
                         );
+                        candidate_rule_ids.extend(self.rule_index.query_candidate_rules(
+                            None,
+                            Some(shared::rule_index::WILDCARD),
+                            None,
+                        ));
                         for &rule_id in candidate_rule_ids.iter() {
                             let rule = &self.rules[rule_id];
                             match rule.premise.len() {
